@@ -273,7 +273,9 @@ def run_tlc(module, cfg, files=None, data=None, workers=None, timeout=900, heap=
                 if n == 0:
                     txt += "\nCONSTANT %s = %s\n" % (k, v)
             open(p, "w").write(txt)
-        jopts = ["-XX:+UseParallelGC", "-Xmx" + heap, "-Xss" + stack]
+        # (TLC unpacks its standard modules into java.io.tmpdir on every run: keep that inside the scratch dir)
+        os.makedirs(os.path.join(d, "jtmp"), exist_ok=True)
+        jopts = ["-XX:+UseParallelGC", "-Xmx" + heap, "-Xss" + stack, "-Djava.io.tmpdir=" + os.path.join(d, "jtmp")]
         if depth_first:
             jopts.append("-Dtlc2.tool.queue.IStateQueue=StateDeque")
         cmd = ["java"] + jopts + ["-cp", TLA_CP, "tlc2.TLC", "-workers", str(workers or "auto"),
